@@ -64,6 +64,60 @@ WHAT = {
  "C11-r3-mut3": "Push reads the Replace option of the queued entry", "C12-r3-mut1": "pool capped at GOMAXPROCS", "C12-r3-mut2": "a worker leaves when a job fails with a context error",
  "C12-r3-mut3": "live-worker accounting across restarts (old workers counted, never replaced)",
  "C18-mut1": "lock released before Output", "C18-mut2": "message used as format string", "C18-mut3": "slog threshold cached at construction with an off-by-one probe",
+ "C01-r4-mut1": "`closestWeekday` as a switch that forgets a Sunday that is the last day of the month (`LW` → day 32, rolled into the next month)",
+ "C01-r4-mut2": "seconds/minutes-only expressions searched in UTC (fixed offsets that are not whole hours / minutes)",
+ "C01-r4-mut3": "`nL` computed by stepping back from the 1st of the next month, `year++` forgotten in December",
+ "C02-r4-mut1": "search restarts from the normalised instant after a spring-forward gap (matches within one shift after the gap lost)",
+ "C02-r4-mut2": "repeated reading retried as `next.Add(time.Hour)` instead of with prev's offset (shifts other than 60 min)",
+ "C02-r4-mut3": "`resetFrom` as an ascending loop (the day node is reset before the month)",
+ "C03-r4-mut1": "ResumeJob invents the fire time `now` for a paused job whose trigger has expired",
+ "C03-r4-mut2": "a long misfire is re-queued at `NextFireTime(scheduled time)` clamped to now (a time the trigger never produced)",
+ "C03-r4-mut3": "Replace with a same-description trigger keeps the old trigger's pending fire time",
+ "C04-r4-mut1": "failed reschedule Push puts the popped entry back and still runs it (fire time accounted for twice)",
+ "C04-r4-mut2": "WorkerLimit arm before BlockingExecution arm: with both options the loop blocks on a pool that was never started",
+ "C04-r4-mut3": "the misfire log line asks the trigger too (a stateful trigger is advanced twice per misfire)",
+ "C05-r4-mut1": "a trigger's own non-expiry error is returned to the loop: back-off on a healthy queue",
+ "C05-r4-mut2": "unbuffered interrupt channel",
+ "C05-r4-mut3": "`looping` flag cleared by the exiting loop of the previous run: Reset() discarded after a restart",
+ "C06-r4-mut1": "unsynchronised last-answer memo in the trigger",
+ "C06-r4-mut2": "DayNode.Reset carries into the next month by recursion (fatal stack overflow for never-matching day rules)",
+ "C06-r4-mut3": "after-prev check dropped from fires() as redundant",
+ "C07-r4-mut1": "step checked against the span of its range (`30/30`, `*/12` in months rejected)",
+ "C07-r4-mut2": "day-of-month `L` regexp replaced by a prefix test (`L5-3`, `LL-2`, `L,5-3` accepted as `L-n`)",
+ "C07-r4-mut3": "one name index shared by months and weekdays (`MON` accepted as a month, `FEB` as a weekday)",
+ "C08-r4-mut1": "ResumeJob keeps the fire time that was pending at the pause if it is still ahead",
+ "C08-r4-mut2": "ResumeJob reads the clock before it has the queue lock",
+ "C08-r4-mut3": "an entry whose next run time is MaxInt64 is not pushed back (a paused entry popped on a stale tick vanishes)",
+ "C09-r4-mut1": "ResumeJob asks the trigger after the entry was removed (failed call loses the job)",
+ "C09-r4-mut2": "Clear has a lock-free fast path on Size() == 0 (lands inside the loop's pop…push window)",
+ "C09-r4-mut3": "key set beside the heap, not reset by Clear",
+ "C10-r4-mut1": "watcher goroutine calls Stop() instead of stopping its own run",
+ "C10-r4-mut2": "worker pool started before the run's context is derived (shadowed ctx: Stop does not reach the workers)",
+ "C10-r4-mut3": "stop() guarded by the IsStarted expression (flag stays set after a cancelled run)",
+ "C11-r4-mut1": "key set beside the heap, not reset by Clear",
+ "C11-r4-mut2": "RWMutex: Push checks for a duplicate under the read lock, inserts under the write lock",
+ "C11-r4-mut3": "status matcher treats a next run time of MaxInt64 as paused",
+ "C12-r4-mut1": "per-job RWMutex held for the whole execution; PauseJob blocks holding the queue lock",
+ "C12-r4-mut2": "jobs with identical fire times batched into one goroutine",
+ "C12-r4-mut3": "loop executes the job itself when the context ends while it waits for a free worker (n+1 in progress)",
+ "C13-r4-mut1": "a job paused during its retry wait is no longer retried",
+ "C13-r4-mut2": "retry counter lives on the JobDetail and is reset only on success",
+ "C13-r4-mut3": "recover moved to the goroutine boundary (a panic ends a pool worker)",
+ "C14-r4-mut1": "fast path for readings in prev's zone period with an inclusive period end",
+ "C14-r4-mut2": "`no DST this year` shortcut from the January and July offsets",
+ "C14-r4-mut3": "a gap reading fires at the start of the zone period of `reading − prevOffset`",
+ "C15-r4-mut1": "an empty Head() arms the maximal timer instead of RetryInterval",
+ "C15-r4-mut2": "Size failures reuse a back-off deadline that is never cleared",
+ "C15-r4-mut3": "PauseJob rolls back through ScheduleJob while holding the queue lock (self-deadlock)",
+ "C16-r4-mut1": "FunctionJob stores the outcome only if no later-started execution has reported",
+ "C16-r4-mut2": "ShellJob exit code taken from *exec.ExitError (stale code when the process never started)",
+ "C16-r4-mut3": "CurlJob buffers the body eagerly, capped at 1 MiB",
+ "C17-r4-mut1": "NewIsolatedJob flattens an already isolated job (two gates around one job)",
+ "C17-r4-mut2": "early Store(false) plus the deferred one (a finished call reopens the gate of the next execution)",
+ "C17-r4-mut3": "counter gate: a refused call in flight keeps the gate shut",
+ "C18-r4-mut1": "SimpleLogger caches the prefix it last installed",
+ "C18-r4-mut2": "levels compared by rank (level/4): thresholds between two named levels",
+ "C18-r4-mut3": "SlogLogger de-duplicates keys, last value wins",
 }
 rows = []
 for d in sorted(glob.glob(os.path.join(V, "seeded", "*", "meta.json"))):
